@@ -333,7 +333,7 @@ func cmdCheck(args []string) int {
 			// second solver call: values of the observable inputs in the counter-model
 			data, err := os.ReadFile(r.File)
 			if err == nil {
-				vf, err := writeQuery(filepath.Dir(r.File), r.Name+".values", ValueQuery(string(data), r.vc.obs))
+				vf, err := writeQuery(filepath.Dir(r.File), r.Name+".values", ValueQuery(GroundQuery(string(data)), r.vc.obs))
 				if err == nil {
 					vr := runSolver(solvers[0], vf, 20, seed)
 					r.Values = parseValues(vr.Output, r.vc.obs)
